@@ -17,6 +17,7 @@ import (
 	"strconv"
 	"strings"
 	"sync"
+	"time"
 
 	"github.com/samber/ro"
 )
@@ -180,6 +181,7 @@ func runTeardownCase(c *Case) string {
 	p2 := &tdProbe{td: log.teardown(2, pan[2])}
 	p3 := &tdProbe{td: log.teardown(3, pan[3])}
 	var sub ro.Subscription
+	var baseline map[string]int
 	ok := true
 	switch setup {
 	case "plain":
@@ -197,6 +199,16 @@ func runTeardownCase(c *Case) string {
 		if a, ok = buildCaseObs(c, ro.TapOnFinalize[int](log.teardown(2, pan[2]))(p1.Observable())); ok {
 			sub, ok = cutSubscribeAny(a, subCtx, rec, &cutCtl{}, false)
 		}
+	case "leak":
+		// the operators that own a goroutine or a timer (leak.go), over the panicking probe
+		lo, found := leakOps[c.get("op", "?")]
+		if !found || !lo.src {
+			ok = false
+			break
+		}
+		baseline = roGoroutineCounts()
+		sub = lo.sub(p1.Observable(), rec)
+		time.Sleep(3 * time.Millisecond) // ToChannel subscribes its source from a goroutine, after 1ms
 	case "merge":
 		sub = subAny(ro.Merge(p1.Observable(), p2.Observable()), rec)
 	case "merge3":
@@ -249,7 +261,37 @@ func runTeardownCase(c *Case) string {
 		ran[i] = strconv.Itoa(id)
 	}
 	log.mu.Unlock()
-	return fmt.Sprintf("res %s ran=%s raised=%s at=%s again=%d closed=%d", c.id, joinOrDash(ran), normRaised(raised), at, again, closed)
+	line := fmt.Sprintf("res %s ran=%s raised=%s at=%s again=%d closed=%d", c.id, joinOrDash(ran), normRaised(raised), at, again, closed)
+	if setup == "leak" {
+		// no goroutine created by the library on behalf of THIS subscription may survive it
+		// (goroutines that leaked in earlier cases are in the baseline)
+		leaked := 1
+		for deadline := time.Now().Add(400 * time.Millisecond); ; time.Sleep(time.Millisecond) {
+			extra := false
+			for loc, n := range roGoroutineCounts() {
+				if n > baseline[loc] {
+					extra = true
+				}
+			}
+			if !extra {
+				leaked = 0
+				break
+			}
+			if time.Now().After(deadline) {
+				break
+			}
+		}
+		line += fmt.Sprintf(" leaked=%d", leaked)
+	}
+	return line
+}
+
+func roGoroutineCounts() map[string]int {
+	out := map[string]int{}
+	for _, loc := range roGoroutines() {
+		out[loc]++
+	}
+	return out
 }
 
 func genTeardown(tier string, seed int64, only string) []*Case {
@@ -310,6 +352,18 @@ func genTeardown(tier string, seed int64, only string) []*Case {
 		}
 	}
 	if only == "" {
+		var names []string
+		for k, lo := range leakOps {
+			if lo.src {
+				names = append(names, k)
+			}
+		}
+		sortStrings(names)
+		for _, n := range names {
+			for _, pan := range pans(1) {
+				add("setup", "leak", "op", n, "end", "unsub", "pan", pan)
+			}
+		}
 		for _, st := range []struct {
 			setup string
 			n     int
